@@ -129,6 +129,24 @@ def run(tier):
     results = vlib.read_ndjson_text(out)
     if len(results) != len(scen):
         raise vlib.ToolError("masks returned %d results for %d scenarios" % (len(results), len(scen)))
+    # the same predictions with narrow rayon pools (the masking of the four wires is split
+    # across rayon tasks: which draw masks which polynomial must not depend on the pool width)
+    small = [x for x in scen if x["family"] in ("tiny", "arith")]
+    small_ids = set(x["id"] for x in small)
+    sp2, ep2 = os.path.join(d, "scen-small.ndjson"), os.path.join(d, "expect-small.ndjson")
+    vlib.write_ndjson(sp2, small)
+    vlib.write_ndjson(ep2, [e for e in exp if e["id"] in small_ids])
+    pools = (1, 3) if tier == "quick" else (1, 2, 3, 5)
+    for nt in pools:
+        out = vlib.harness("masks", ["run", "--scen", sp2, "--expect", ep2], timeout=1500,
+                           env={"RAYON_NUM_THREADS": str(nt)})
+        more = vlib.read_ndjson_text(out)
+        if len(more) != len(small):
+            raise vlib.ToolError("masks (pool %d) returned %d results for %d scenarios" % (nt, len(more), len(small)))
+        for r in more:
+            r["pool"] = nt
+        results += more
+    ck.extra["rayon_pools"] = ["default"] + list(pools)
     byid = {s["id"]: s for s in scen}
     expid = {e["id"]: e for e in exp}
     n_ok = 0
@@ -137,7 +155,7 @@ def run(tier):
         if "error" in r:
             raise vlib.ToolError("masks scenario %d: %s" % (r["id"], r["error"]))
         ck.case({"family": s["family"], "kind": s["kind"], "k": s.get("k", 0), "version": s["version"],
-                 "id": s["id"]})
+                 "id": s["id"], "pool": r.get("pool", "default")})
         ck.traces += 1
         if r.get("ok"):
             n_ok += 1
@@ -154,6 +172,8 @@ def run(tier):
             what = "scripted proof did not prove/verify: %s" % json.dumps(
                 {k: r.get(k) for k in ("prove", "verify")})
             site = "prove-verify"
+        if "pool" in r:
+            what += " [rayon pool of %d threads]" % r["pool"]
         ck.violation(what, {"key": {"site": site, "kind": s["kind"], "k": s.get("k", 0),
                                     "fields": sorted(b.get("field", "?") for b in r.get("bad", []))},
                             "scenario": s, "expected": expid[r["id"]], "observed": r})
